@@ -45,14 +45,17 @@ pub struct ProbeSpec {
     pub late_pulls: bool,
     /// the sink does not keep the talkback it is greeted with (it can then never act; conformant)
     pub drop_talkback: bool,
+    /// with `late_pulls`: one such Pull is also sent from INSIDE the handler of the Terminate / Error
+    /// that ends the subscription (a sink whose completion callback asks for more)
+    pub late_pull_nested: bool,
 }
 
 impl ProbeSpec {
     pub fn passive() -> Self {
-        ProbeSpec { policy: vec![], rest: React::Nothing, pull_cap: 1000, attach: None, poke: None, feed: None, only_attached: false, late_pulls: false, drop_talkback: false }
+        ProbeSpec { policy: vec![], rest: React::Nothing, pull_cap: 1000, attach: None, poke: None, feed: None, only_attached: false, late_pulls: false, drop_talkback: false, late_pull_nested: false }
     }
     pub fn puller() -> Self {
-        ProbeSpec { policy: vec![], rest: React::Pull, pull_cap: 1000, attach: None, poke: None, feed: None, only_attached: false, late_pulls: false, drop_talkback: false }
+        ProbeSpec { policy: vec![], rest: React::Pull, pull_cap: 1000, attach: None, poke: None, feed: None, only_attached: false, late_pulls: false, drop_talkback: false, late_pull_nested: false }
     }
 }
 
@@ -150,6 +153,9 @@ impl<T: Repr + Send + Sync + 'static> Probe<T> {
             Message::Terminate => {
                 let _f = self.world.enter(self.edge, Dir::Down, Kind::Terminate, Val::none(), -1);
                 self.release();
+                if self.spec.late_pull_nested {
+                    self.act(React::LatePull);
+                }
                 self.run_hook(2, 0);
             },
             Message::Error(e) => {
@@ -157,6 +163,9 @@ impl<T: Repr + Send + Sync + 'static> Probe<T> {
                 let id = self.world.err_id(&e);
                 let _f = self.world.enter(self.edge, Dir::Down, Kind::Error, Val::none(), id);
                 self.release();
+                if self.spec.late_pull_nested {
+                    self.act(React::LatePull);
+                }
                 self.run_hook(2, 0);
             },
             Message::Pull => {
